@@ -475,6 +475,12 @@ def run_steps(ctx, binp, ml, profile, seed, only=None, timeout=900):
                     fl["misfire_not_offered"] = True
                     fl["why"] = ["the dequeued fire time was more than OutdatedThreshold late (skipped and re-based), but it was not offered to "
                                  "MisfiredChan although " + how] + fl["why"]
+                if t[0] == "F" and okey is not None and any(len(cc) == 3 and cc[2].startswith("E") for cc in ocalls) \
+                        and oreg is not None and okey in oreg:
+                    fl["job_kept_after_trigger_error"] = True
+                    fl["why"] = ["the job's trigger failed (%s) when asked for the fire time after %s, so the job has to leave the registry, but it is "
+                                 "still registered: %s:%s" % ([cc[2] for cc in ocalls if len(cc) == 3][-1], oparts[0].split(" ")[0].rsplit(":", 2)[1],
+                                                              okey, ":".join(str(x) for x in oreg[okey]))] + fl["why"]
                 if extra:
                     fl["step_facts"] = extra
                 if t[0] == "FX":
@@ -1044,4 +1050,10 @@ STEP_RULE = ("step correspondence: fixed scenarios plus random sequences of 40 s
              "locker; fire times placed by margins (-60 s late, -3 s due, +1 h future; threshold 10 s) with scripted, SimpleTrigger and "
              "RunOnceTrigger triggers, MisfiredChan nil / unbuffered / 1 / 64; every step's returned job and valid flag, trigger calls (prev, result), "
              "misfire offer, Reset token and the whole registry compared with the extracted Coq model and with the property's own step "
-             "specification; non-trivial = a fetch that popped a job. ")
+             "specification; non-trivial = a fetch that popped a job. Round 3: MisfiredChan unbuffered with a listener goroutine parked in the "
+             "receive (state read off the runtime's goroutine dump before and after the fetch), capacity 1 / 2 / 8 / 64 empty, full and with "
+             "exactly one free slot (with a waiting receiver or room the offer must arrive); scripted triggers that fail at their 2nd, 3rd ... call "
+             "with ErrTriggerExpired itself, the sentinel wrapped with %w, or an unrelated error, followed by fetches after the clock has passed "
+             "now + RetryInterval (1-2 ms, once the default 100 ms); fire times placed 1 us .. 5 ms ahead of the clock of the moment; fire times "
+             "MaxInt64 / MaxInt64-1; two oracles on the observation alone: a job returned as valid whose fire time is later than the clock read "
+             "after the fetch (early), or is not a value its own trigger returned for it / a foreign writer queued (no fire time). ")
